@@ -38,7 +38,8 @@ def _is_mv(n) -> Optional[str]:
 
 
 def same(a: ast.AST, b: ast.AST) -> bool:
-    return ast.dump(a) == ast.dump(b)
+    # the same expression in load and in store position (a comprehension's target and its uses) is the same expression
+    return ast.dump(a).replace("ctx=Store()", "ctx=Load()") == ast.dump(b).replace("ctx=Store()", "ctx=Load()")
 
 
 def match(pat, node, binds: Dict[str, ast.AST] = None) -> Optional[Dict[str, ast.AST]]:
